@@ -36,12 +36,24 @@ def heap_env(x) -> (dict, Dict[int, int]):
         k = len(ids)
         ids[id(o)] = k
         keep.append(o)
-        if isinstance(o, GENLIKE):
+        import weakref as _weakref
+
+        if type(o) in (_weakref.ProxyType, _weakref.CallableProxyType):
+            # a transparent proxy of a generator: unwrapped like the generator (dispatch goes by __class__), but it cannot be
+            # weakly referenced itself, so it is nobody's Frame.origin
+            fr = chains.frame_of(o)
+            fid = ident(fr) if fr is not None else None
+            if fr is not None:
+                items.append({"id": fid, "kind": "frame", "el": None, "hide": "__tracebackhide__" in fr.f_locals})
+            aw = chains.awaited_of(o)
+            parts = [x for x in (fid, ident(aw)) if x is not None]
+            items.append({"id": k, "kind": "thingnw", "uw": ["tuple", parts]})
+        elif isinstance(o, GENLIKE):
             fr = chains.frame_of(o)
             running = getattr(o, "gi_running", False) or getattr(o, "cr_running", False)
             fid = ident(fr) if fr is not None else None
             if fr is not None:
-                items.append({"id": fid, "kind": "frame", "el": None})
+                items.append({"id": fid, "kind": "frame", "el": None, "hide": "__tracebackhide__" in fr.f_locals})
             aw = chains.awaited_of(o)
             items.append({"id": k, "kind": "gen", "frame": fid, "yf": ident(aw)})
         elif isinstance(o, types.FrameType):
